@@ -6,7 +6,7 @@
    algorithm, .changes file lines).  A changed or dropped tag makes the corresponding lemma fail to compile. *)
 From Coq Require Import List Ascii String Bool Arith NArith ZArith Lia.
 Require Import SchemaDefs Schema_gen.
-Require GS R2 R2u L10 L12 L13 ACC C9G CX CX2 CX3 C10E.
+Require GS R2 R2u L10 L12 L13 ACC ACC2 D3 C9G CX CX2 CX3 C10E.
 Import ListNotations.
 
 Lemma C10_dsc_schema_ok : schema_ok dsc_schema dsc_table = true.
@@ -112,3 +112,31 @@ Theorem C10_source_package_versioned : forall name rest package, name <> [] -> G
 Proof. exact ACC.C10_source_package_versioned. Qed.
 Theorem C10_source_package_empty : forall package, ACC.source_package [] package = package.
 Proof. exact ACC.C10_source_package_empty. Qed.
+
+(* on-demand dependency fields of the Packages / Sources indexes (BinaryIndex.GetDepends ... SourceIndex.GetBuildDepends ...):
+   not struct fields - the accessor parses the embedded paragraph's text for that field.  A field the paragraph lacks
+   gives the empty dependency, a field whose text the parser accepts gives exactly the parsed value (with
+   C04_parse_render: the relations written), malformed text gives the empty dependency, and nothing but that one field
+   matters *)
+Theorem C10_ondemand_dependency_field : forall field p,
+  (R2.mem field (R2.values p) = false -> ACC2.get_optional_dep field p = []) /\
+  (forall d, D3.parse (R2.lookup field (R2.values p)) = D3.Ok d -> ACC2.get_optional_dep field p = d) /\
+  (D3.parse (R2.lookup field (R2.values p)) = D3.Err -> ACC2.get_optional_dep field p = []) /\
+  (forall q, R2.lookup field (R2.values p) = R2.lookup field (R2.values q) -> ACC2.get_optional_dep field p = ACC2.get_optional_dep field q).
+Proof.
+  exact (fun field p => conj (ACC2.ondemand_absent field p) (conj (ACC2.ondemand_present field p)
+          (conj (ACC2.ondemand_malformed field p) (ACC2.ondemand_only_its_field field p)))).
+Qed.
+(* DSC.DebianSource: the first listed file whose name contains ".debian.", an error when there is none;
+   Changes.GetDSC: the first listed file whose name ends in ".dsc" *)
+Theorem C10_debian_source : forall names,
+  (forall n, ACC2.debian_source names = Some n ->
+     exists pre post, names = pre ++ n :: post /\ (exists a b, n = a ++ GS.s ".debian." ++ b) /\
+                      Forall (fun m => ACC2.contains_sub (GS.s ".debian.") m = false) pre) /\
+  (ACC2.debian_source names = None <-> Forall (fun m => ACC2.contains_sub (GS.s ".debian.") m = false) names).
+Proof. exact (fun names => conj (ACC2.debian_source_some names) (ACC2.debian_source_none names)). Qed.
+Theorem C10_dsc_of_changes : forall names,
+  (forall n, ACC2.dsc_of_changes names = Some n -> In n names /\ GS.has_suffix (GS.s ".dsc") n = true) /\
+  (ACC2.dsc_of_changes names = None -> forall n, In n names -> GS.has_suffix (GS.s ".dsc") n = false).
+Proof. exact (fun names => conj (ACC2.dsc_of_changes_some names) (ACC2.dsc_of_changes_none names)). Qed.
+Print Assumptions C10_ondemand_dependency_field.
